@@ -40,8 +40,9 @@ inductive Val where
 
 namespace Val
 
-def f64bits (x : Float) : String := toString x.toBits.toNat
-def f32bits (x : Float32) : String := toString x.toBits.toNat
+/-- IEEE bit pattern; every NaN is rendered as one canonical NaN (payload and sign of NaNs are not compared) -/
+def f64bits (x : Float) : String := if x.isNaN then "9221120237041090560" else toString x.toBits.toNat
+def f32bits (x : Float32) : String := if x.isNaN then "2143289344" else toString x.toBits.toNat
 
 def elemTToSexp : ElemT → Sexp
   | .iface => .atom "any"
